@@ -275,6 +275,14 @@ def run_worker(case, hs=None):
             if ty == bp.DEATH and len(args) == 2:
                 st.log.append(['death', args[0], args[1]])
                 return
+            if ty == bp.READY and case.get('term_in_put') is not None:
+                # the termination signal lands while the worker is INSIDE the put of the k-th result:
+                # the handler sets the flag and raises SystemExit there; the message is not sent
+                st.ready_puts = getattr(st, 'ready_puts', 0) + 1
+                if st.ready_puts == case['term_in_put']:
+                    bc._should_have_exited[0] = True
+                    st.log.append(['termput', args[0], args[1]])
+                    sys.exit(-241)
             try:
                 data = ForkingPickler.dumps(obj)
             except BaseException:
